@@ -1,4 +1,5 @@
 import Crd.Props.C07
+import Crd.Props.C07Float
 #print axioms Crd.Props.C07.defaults
 #print axioms Crd.Props.C07.first_instance_states_all
 #print axioms Crd.Props.C07.later_instance_exactly_its_settings
@@ -12,3 +13,6 @@ import Crd.Props.C07
 #print axioms Crd.Props.C07.tempo_value_partial
 #print axioms Crd.Props.C07.dynamics_monotone
 #print axioms Crd.Props.C07.velocity_persists
+#print axioms Crd.Props.C07.tempo_value
+#print axioms Crd.Props.C07.tempo_fits
+#print axioms Crd.Props.C07.tempo_event
